@@ -963,10 +963,22 @@ def rule_scanner_stops_at_signature(repo: Repo, rep, rule: str = "R15.7") -> Non
                         break
             if not starts:
                 raise AnalysisError(f"{rule}: nothing is written under a `startswith('async def ')` test in {fn.qualname} (anchor)")
+            # the index is not moved again once it has been set to the end (before the loop head is reached)
+            idx_moves = {n.id for n in cfg.nodes if n.kind == "stmt" and n.id not in ends and isinstance(n.ast, (ast.Assign, ast.AugAssign)) and any(
+                isinstance(t, ast.Name) and t.id == idx for t in (n.ast.targets if isinstance(n.ast, ast.Assign) else [n.ast.target]))}
+            moved_after_end = any(cfg.reachable_from_without(e, set(heads)) & idx_moves for e in ends)
             wit = None
             for s_ in starts:
                 p_ = cfg.must_pass(s_.id, ends, set(heads))
-                if p_ is not None:
+                if p_ is None:
+                    continue
+                # ... or the index was already set to the end on every way to this emission
+                gnodes = [g for g, pol in guards(cfg, s_.id, dom) if g.kind == "test" and pol is True and any(
+                    isinstance(c, ast.Call) and isinstance(c.func, ast.Attribute) and c.func.attr == "startswith" and c.args and (const_str(c.args[0]) or "").startswith(("async def", "def "))
+                    for c in ast.walk(L.inline(g.ast, stop=tuple(L.params))))]
+                set_before = bool(gnodes) and not moved_after_end and all(
+                    cfg.must_pass(m, ends, {s_.id}) is None for g in gnodes for m, lab in cfg.succ[g.id] if lab == "true")
+                if not set_before:
                     wit = (s_, p_)
                     break
             sub = f"{fn.module.relpath}:{fn.qualname} scan of the rendered method ends at the implementation signature"
